@@ -25,6 +25,10 @@ def h_tail(E, N, C, which):
     return tables.h_metarize(E, N, C, which, 0, 'C04T')
 
 
+def h_whole(E, N, C, which, excl):
+    return tables.h_metarize(E, N, C, which, excl, 'C04W')
+
+
 class _Probe:
     """Stands for the time-ordered heights of a set of n hits: records where the look-back slice starts instead of
     materialising it (so the count stays a symbolic binary64 integer, no concretisation)."""
@@ -77,6 +81,11 @@ HARNESSES = [
       float_model='R', cover=['two hits of one measurement in one set'],
       assumptions=['statsmodels LOWESS replaced by a stub returning arbitrary finite values'],
       doc='whole real metarize(): table sorted by ascending base; coded height is the floor of the base'),
+    H('H-whole', h_whole, quick=[(2, 2, 'layers', 1), (2, 2, 'slices', 1)], thorough=[(2, 2, 'layers', 1), (2, 2, 'slices', 1), (2, 2, 'groups', 1), (3, 2, 'layers', 1)],
+      float_model='R', cover=['exclusion applied', 'exclusion fall-back'],
+      assumptions=['statsmodels LOWESS replaced by a stub returning arbitrary finite values'],
+      doc='whole real metarize() with an exclusion list: the H-base clauses (enclosure, min/max/mean/std/thickness over all member '
+          'hits, base = percentile of the non-excluded ones) on the finished table'),
     c18.get_harness('K-height'),
     H('K-lookback', k_lookback, quick=[(a, a + 7) for a in range(1, 64, 8)], thorough=[(a, a + 7) for a in range(1, 200, 8)],
       float_model='F', logic='QF_FP', cover=['look-back keeps a strict subset'], query_timeout_ms=600000, slice_s=60,
